@@ -40,6 +40,7 @@ func (v *lval) Size() int { return 1 }
 // ---------------------------------------------------------------- key tokens  <ty>:<value>:<hash>
 
 type key struct {
+	hash uint64 // the xxhash the script states for this key
 	ty   string
 	v    interface{} // the Go key
 	ok   bool
@@ -72,10 +73,11 @@ func parseKey(tok string) (key, bool) {
 	if len(p) != 3 || !decimal(p[2], false) {
 		return key{}, false
 	}
-	if _, err := strconv.ParseUint(p[2], 10, 64); err != nil {
+	hv, err := strconv.ParseUint(p[2], 10, 64)
+	if err != nil {
 		return key{}, false
 	}
-	k := key{ty: p[0], text: p[1]}
+	k := key{ty: p[0], text: p[1], hash: hv}
 	switch p[0] {
 	case "u8", "u16", "u32", "u64", "uint", "hit":
 		if !decimal(p[1], false) {
@@ -390,6 +392,13 @@ func (r *runner) line(line string) string {
 		if call(r.rm) != idx || call(r.rm2) != idx {
 			r.hit("C17:remap."+fn+":nondeterministic", fmt.Sprintf("%s(%s %s), %d shards", fn, k.ty, k.text, r.n))
 		}
+		if f[0] == "xhash" {
+			// known-answer check: the hash the script states (fixed scripts carry the reference XXH64 values; generated ones the
+			// value computed when the script was made) must be what the package computes now, in this process
+			if real, p2 := guardS(func() string { return strconv.FormatUint(remap.XXHash(k.v), 10) }); !p2 && real != strconv.FormatUint(k.hash, 10) {
+				r.hit("C17:remap.XXHash:not-the-stated-hash", fmt.Sprintf("XXHash(%s %s) = %s, the script states %d (XXH64 reference value / value at generation time): the hash is not a fixed function of the key", k.ty, k.text, real, k.hash))
+			}
+		}
 		if f[0] == "xhash" && r.rm.SearchIndex(remap.XXHash(k.v)) != idx {
 			r.hit("C17:remap.XHashIndex:not-the-shard-of-its-hash", fmt.Sprintf("XHashIndex(%s %s)=%d, SearchIndex(XXHash)=%d", k.ty, k.text, idx, r.rm.SearchIndex(remap.XXHash(k.v))))
 		}
@@ -406,6 +415,8 @@ func (r *runner) line(line string) string {
 		return r.newLocks(f)
 	case "acq", "rel":
 		return r.locksOp(f)
+	case "bset", "bdel", "bprobe":
+		return r.bulkOp(f)
 	case "set", "get", "peek", "exist", "del":
 		if r.mode == "wl" {
 			return r.wlOp(f)
@@ -507,6 +518,52 @@ func (r *runner) contOp(f []string) string {
 	tw, _ := guardS(func() string { return do(r.twin) })
 	if tw != out {
 		r.hit("C17:"+name+":differs-from-unsharded", fmt.Sprintf("%s %s: sharded (%d shards, xhash=%v) answers %s, unsharded answers %s", f[0], f[1], r.n, r.xhash, out, tw))
+	}
+	return out
+}
+
+// bulkOp: `bset a n` / `bdel a n` / `bprobe a n` on a container with modulo routing: the int keys a … a+n-1 (value key+1)
+// are stored / deleted / looked up in one line, on the sharded container and its unsharded twin (thousands of keys,
+// mass deletion, then a probe: state that only shows far beyond a dozen keys).
+func (r *runner) bulkOp(f []string) string {
+	if r.mode != "cont" || len(f) != 3 || r.xhash {
+		return "bad-op"
+	}
+	a, ok1 := parseNatTok(f[1])
+	n, ok2 := parseNatTok(f[2])
+	if !ok1 || !ok2 || n == 0 || n > 20000 || a > 1000000 {
+		return "bad-op"
+	}
+	do := func(c container) string {
+		present, sum := 0, 0
+		for k := a; k < a+n; k++ {
+			switch f[0] {
+			case "bset":
+				c.Set(k, k+1)
+			case "bdel":
+				c.Delete(k)
+			default:
+				if res := c.Get(k); strings.HasPrefix(res, "v=") {
+					v, _ := strconv.Atoi(res[2:])
+					present++
+					sum += v
+				}
+			}
+		}
+		if f[0] == "bprobe" {
+			return fmt.Sprintf("present=%d sum=%d", present, sum)
+		}
+		return "ok"
+	}
+	name := contName[r.kind]
+	out, p := guardS(func() string { return do(r.wide) })
+	if p {
+		r.hit("C17:"+name+":panics", fmt.Sprintf("%s on %d shards", strings.Join(f, " "), r.n))
+		return out
+	}
+	tw, _ := guardS(func() string { return do(r.twin) })
+	if tw != out {
+		r.hit("C17:"+name+":differs-from-unsharded", fmt.Sprintf("%s: sharded (%d shards) answers `%s`, unsharded answers `%s`", strings.Join(f, " "), r.n, out, tw))
 	}
 	return out
 }
